@@ -36,7 +36,7 @@ class Counter:
 
 
 @st.composite
-def documents(draw: Any, kind: str = 'function', fmt_family: str = 'markup', max_blocks: int = 4) -> Dict[str, Any]:
+def documents(draw: Any, kind: str = 'function', fmt_family: str = 'markup', max_blocks: int = 4, epytext: bool = False) -> Dict[str, Any]:
     """kind: function | class | module (decides which fields are legal).  fmt_family: 'markup' (epytext/reST),
     'sections' (google/numpy: fields limited to what their sections express)."""
     c = Counter()
@@ -51,14 +51,38 @@ def documents(draw: Any, kind: str = 'function', fmt_family: str = 'markup', max
         return out
 
     def para() -> Dict[str, Any]:
-        return {'t': 'para', 'runs': runs()}
+        return {'t': 'para', 'runs': runs(), 'wrap': draw(st.integers(0, 2)) == 0}
 
     def lst(depth: int) -> Dict[str, Any]:
         items = []
         for _ in range(draw(st.integers(1, 3))):
-            it: List[Dict[str, Any]] = [para()]
-            if depth < 2 and draw(st.integers(0, 3)) == 0:
-                it.append(lst(depth + 1))
+            # an item starts with a paragraph or with a pre-formatted block (whose introduction is its first paragraph)
+            shape = draw(st.sampled_from(['para', 'para', 'para+list', 'para+para', 'para+pre', 'para+pre+para', 'pre', 'pre+para', 'pre+para']))
+            it: List[Dict[str, Any]] = []
+            for part in shape.split('+'):
+                if part == 'para':
+                    it.append(para())
+                elif part == 'pre':
+                    it.append(pre())
+                elif depth < 2:
+                    it.append(lst(depth + 1))
+            if epytext:
+                # epytext delimits a literal block by the indentation of the paragraph that introduces it; for the
+                # one-line first paragraph of an item that is the bullet's, so anything after the block in the same item
+                # would belong to it; an (indented) list after a block always would; doctest blocks are not legal in items
+                for b_ in it:
+                    if b_['t'] == 'doctest':
+                        b_['t'] = 'literal'
+                        b_['lines'] = ['x = 1']
+                if it[0]['t'] != 'para' and not it[0].get('intro_wrap'):
+                    it = it[:1]
+                cut = None
+                for bi_, b_ in enumerate(it):
+                    if b_['t'] in ('bullet', 'enum') and bi_ and it[bi_ - 1]['t'] != 'para':
+                        cut = bi_
+                        break
+                if cut is not None:
+                    it = it[:cut]
             items.append(it)
         return {'t': draw(st.sampled_from(['bullet', 'enum'])), 'items': items}
 
@@ -74,7 +98,7 @@ def documents(draw: Any, kind: str = 'function', fmt_family: str = 'markup', max
             lines = draw(st.lists(st.sampled_from(LITERAL_LINES), min_size=1, max_size=3))
             if lines[0].startswith(' '):
                 lines = ['first'] + lines
-        return {'t': t, 'lines': lines, 'intro': c.words(2)}
+        return {'t': t, 'lines': lines, 'intro': c.words(draw(st.integers(2, 4))), 'intro_wrap': draw(st.booleans())}
 
     def block(depth: int) -> Dict[str, Any]:
         k = draw(st.sampled_from(['para', 'para', 'list', 'pre']))
@@ -182,14 +206,21 @@ def _blocks(blocks: List[Dict[str, Any]], fmt: str, indent: int, under: str = '=
             out.append('')
         t = b['t']
         if t == 'para':
-            out.append(pad + _inline(b['runs'], fmt))
+            if b.get('wrap') and len(b['runs']) >= 2:
+                k = max(1, len(b['runs']) // 2)
+                out.append(pad + _inline(b['runs'][:k], fmt))
+                out.append(pad + _inline(b['runs'][k:], fmt))
+            else:
+                out.append(pad + _inline(b['runs'], fmt))
         elif t in ('bullet', 'enum'):
             # epytext: a list must be indented relative to the paragraphs around it
             lpad = pad + ('  ' if fmt == 'epytext' else '')
             for ii, it in enumerate(b['items']):
                 marker = '- ' if t == 'bullet' else '%d. ' % (ii + 1)
                 first = _blocks([it[0]], fmt, 0)
-                out.append(lpad + marker + first[0])
+                cont = ' ' * (len(lpad) + len(marker))
+                for fj, fl in enumerate(first):
+                    out.append((lpad + marker + fl) if fj == 0 else ((cont + fl) if fl else ''))
                 rest = it[1:]
                 if rest:
                     out.append('')
@@ -198,7 +229,12 @@ def _blocks(blocks: List[Dict[str, Any]], fmt: str, indent: int, under: str = '=
             if out and out[-1] == '':
                 out.pop()
         elif t in ('literal', 'doctest', 'code'):
-            intro = ' '.join(b['intro'])
+            iw = b['intro']
+            if b.get('intro_wrap') and len(iw) >= 2:
+                out.append(pad + ' '.join(iw[:len(iw) // 2]))
+                intro = ' '.join(iw[len(iw) // 2:])
+            else:
+                intro = ' '.join(iw)
             if t == 'doctest':
                 out.append(pad + intro)
                 out.append('')
